@@ -89,6 +89,12 @@ func runC03(r *Run) {
 	r.checkFullThenUpdate(P)
 	r.checkProgress(P)
 	r.checkResolveFlow(P)
+	// the candidates of one commitment are tried in order until one applies (shared with C02): an authorised operation
+	// is not lost behind a rejected one that reveals the same commitment
+	r.checkFirstApplicable(P, "OperationProcessor.applyFirstValidOperation")
+	r.checkFirstApplicable(P, "OperationProcessor.applyFirstValidCreateOperation")
+	// "anchored outside its window": the window test is the inclusive one of the statement (shared with C05)
+	r.checkApplierWindow(P, r.applierFuncs(P+".window"), map[*ssa.Function]bool{})
 	// "leaves the document unchanged" when patches fail: the composer works on a copy, always
 	r.checkComposerPure(P)
 	// the earliest anchored candidate consumes a commitment: the chronological order is lexicographic (time, number)
